@@ -13,6 +13,7 @@
     the real Node fields on real trees, and the oracle compares them with what the generator wrote.
 -/
 import Cpf.Props.C06
+import Cpf.Lemmas.Fields
 
 namespace Cpf.Props.C05
 open Cpf.Scan Cpf.Go Cpf.Facts Cpf.Generated Cpf.Props.C06
@@ -85,6 +86,40 @@ theorem C05_visibility_first (ws : List Bytes) (w : Bytes)
     (h : ws.find? (fun x => x == str "public" || x == str "private" || x == str "protected") = some w) :
     ((ws.find? (fun x => x == str "public" || x == str "private" || x == str "protected")).getD []) = w := by
   rw [h]; rfl
+
+open Cpf.Lemmas.Fields in
+/-- **C05 (visibility, every layout)**: whatever white space sets the annotations and modifiers of a declaration apart
+    — blanks, tabs, line breaks, runs of them, before the first and after the last — the visibility is the first of
+    `public` / `private` / `protected` among the words. -/
+theorem C05_visibility_layout (lead : Bytes) (items : List (Bytes × Bytes)) (hl : AllSpace lead)
+    (hi : ∀ p ∈ items, IsWord p.1 ∧ IsGap p.2) :
+    extractVisibility (lead ++ layout items)
+      = (((items.map (·.1)).find? (fun w => w == str "public" || w == str "private" || w == str "protected")).getD []) := by
+  unfold extractVisibility
+  rw [fieldsB_layout lead items hl hi]
+
+open Cpf.Lemmas.Fields in
+theorem C05_visibility_layout_last (lead : Bytes) (items : List (Bytes × Bytes)) (w : Bytes) (hl : AllSpace lead)
+    (hi : ∀ p ∈ items, IsWord p.1 ∧ IsGap p.2) (hw : IsWord w) :
+    extractVisibility (lead ++ layout items ++ w)
+      = (((items.map (·.1) ++ [w]).find? (fun w => w == str "public" || w == str "private" || w == str "protected")).getD []) := by
+  unfold extractVisibility
+  rw [fieldsB_layout_last lead items w hl hi hw]
+
+open Cpf.Lemmas.Fields in
+/-- two layouts of the same words have the same visibility -/
+theorem C05_visibility_layout_independent (lead lead' : Bytes) (items items' : List (Bytes × Bytes))
+    (hl : AllSpace lead) (hl' : AllSpace lead')
+    (hi : ∀ p ∈ items, IsWord p.1 ∧ IsGap p.2) (hi' : ∀ p ∈ items', IsWord p.1 ∧ IsGap p.2)
+    (hsame : items.map (·.1) = items'.map (·.1)) :
+    extractVisibility (lead ++ layout items) = extractVisibility (lead' ++ layout items') := by
+  rw [C05_visibility_layout lead items hl hi, C05_visibility_layout lead' items' hl' hi', hsame]
+
+open Cpf.Lemmas.Fields in
+/-- Non-vacuity: `@Deprecated⏎public⇥static ` — a line break and a tab, no blank beside the keyword. -/
+example : IsWord (str "public") ∧ IsGap [10] ∧ IsGap [9] ∧
+    extractVisibility (layout [(str "@Deprecated", [10]), (str "public", [9]), (str "static", [32])]) = str "public" := by
+  refine ⟨⟨by decide, by decide⟩, ⟨by decide, by decide⟩, ⟨by decide, by decide⟩, by decide⟩
 
 /-! ### Javadoc -/
 
